@@ -490,6 +490,7 @@ static std::string doc_text(uint64_t seed, const char* stream, uint64_t doc_idx,
 
 // ---- very deep documents: parsed and destroyed on a thread with a fixed 8 MiB stack in a forked child (the usual main-thread
 // stack limit), so that recursion depth proportional to the nesting of the text shows up as a child killed by a signal
+static vf::Counter c_lookalike("parsed-objects-with-look-alike-keys");
 static vf::Counter c_vdeep("very-deep-documents-parsed-and-destroyed(8MiB-stack)"), c_deep_ok("very-deep:survived");
 struct DeepJob {
   const std::string* text;
@@ -721,6 +722,42 @@ int main(int argc, char** argv) {
                  }
                }});
   if (c03) {
+    // parsed objects whose keys are look-alikes (equal length, one differing byte at every position in turn): each
+    // member must be found under its own name through both FindMember overloads, HasMember and operator[]
+    S.push_back({"lookalike_keys_in_parsed_objects", 200, 2000, [](uint64_t i, vf::Rng& r) {
+                   size_t len = 1 + i % 200;
+                   std::string base(len, 'k');
+                   for (auto& ch : base) ch = (char)('a' + r.below(26));
+                   for (int rep = 0; rep < 6; rep++) {
+                     size_t p = rep == 0 ? 0 : rep == 1 ? len - 1 : rep == 2 && len > 64 ? 32 + r.below(len - 64 + 1) : r.below(len);
+                     std::string k1 = base, k2 = base, k3 = base;
+                     k2[p] = k1[p] == 'z' ? 'y' : 'z';
+                     k3[len / 2] = k1[len / 2] == 'A' ? 'B' : 'A';
+                     if (k3 == k2) k3[0] = 'Q';
+                     std::string text = std::string(r.below(64), ' ') + "{\"" + k1 + "\":0,\"" + k2 + "\":1,\"" + k3 + "\":2}";
+                     c_lookalike.add();
+                     vf::eval();
+                     vf::witness(text);
+                     vf::distinct(vf::hash_str(text));
+                     ExactBuf b(text);
+                     su::PoolDoc d;
+                     d.Parse(b.p, b.n);
+                     if (d.HasParseError() || !d.IsObject() || d.Size() != 3) { vf::violation("lookalike-keys:valid-text-rejected-or-wrong-shape", vf::printable(text, 200)); continue; }
+                     if (rep & 1) d.CreateMap(d.GetAllocator());
+                     const std::string* ks[3] = {&k1, &k2, &k3};
+                     for (int q = 0; q < 3; q++) {
+                       std::unique_ptr<char[]> qb(new char[len]);
+                       memcpy(qb.get(), ks[q]->data(), len);
+                       auto it1 = d.FindMember(StringView(qb.get(), len));
+                       auto it2 = d.FindMember(qb.get(), len);
+                       long g1 = it1 == d.MemberEnd() ? -1 : (long)(it1 - d.MemberBegin()), g2 = it2 == d.MemberEnd() ? -1 : (long)(it2 - d.MemberBegin());
+                       const su::PoolNode& v = static_cast<const su::PoolDoc&>(d)[StringView(qb.get(), len)];
+                       if (g1 != q || g2 != q || !d.HasMember(StringView(qb.get(), len)) || !v.IsUint64() || v.GetUint64() != (uint64_t)q)
+                         vf::violation(std::string("lookalike-keys:member-not-found-under-its-own-name:") + ((rep & 1) ? "map" : "linear"),
+                                       "key length " + std::to_string(len) + ", keys differ at byte " + std::to_string(p) + ": FindMember(view)=" + std::to_string(g1) + " FindMember(ptr,len)=" + std::to_string(g2) + " want " + std::to_string(q));
+                     }
+                   }
+                 }, false});
     // container sizes around the node-copy unroll edges, scalars of every kind as last child
     S.push_back({"sizes_and_last_child", 400, 20000, [](uint64_t i, vf::Rng& r) {
                    static const size_t sizes[] = {0, 1, 2, 3, 4, 5, 7, 8, 9, 15, 16, 17, 31, 32, 33, 40, 63, 64, 65, 127, 128, 129, 130, 255, 256, 257, 1023, 1024, 1025};
